@@ -161,9 +161,9 @@ let () =
   (try while true do
     let line = input_line stdin in
     if line = "" then print_endline "" else begin
-    ignore (Unix.alarm !tmo);
-    let out = (try handle line with Out s -> s | Bad -> "BAD" | Failure _ -> "BAD" | Invalid_argument _ -> "BAD"
-                                  | Stack_overflow -> "STACK" | Timeout -> "TIMEOUT") in
+    let out = (try (ignore (Unix.alarm !tmo); let r = handle line in ignore (Unix.alarm 0); r)
+               with Out s -> s | Bad -> "BAD" | Failure _ -> "BAD" | Invalid_argument _ -> "BAD"
+                  | Stack_overflow -> "STACK" | Timeout -> "TIMEOUT" | Not_found -> "BAD") in
     ignore (Unix.alarm 0);
     print_endline out end
   done with End_of_file -> ())
